@@ -200,6 +200,8 @@ spif_regexp_compile(spif_regexp_t self)
     if (self->data != (spif_ptr_t) NULL) {
         FREE(self->data);
     }
+    /* A regexp made by spif_regexp_new() (or copied from one) has no pattern yet. */
+    REQUIRE_RVAL(!SPIF_PTR_ISNULL(SPIF_STR(self)->s), FALSE);
 #if LIBAST_REGEXP_SUPPORT_PCRE
     {
         const char *errptr;
